@@ -286,6 +286,13 @@ BASE_PROGRAMS = PROGRAMS + [
 ]
 
 
+# base programs the quick tier always uses (each was added for one mechanism: nested loops, conflicting sibling
+# candidates, handlers with several statements, compact layouts)
+QUICK_MUST_HAVE = [p for p in BASE_PROGRAMS if p.startswith(("for i in range(3):\n    for j", "a = 1\nb = 2\nprint(b)\ndone()", "try:\n    n = int(text)",
+                                                            "total = 0\nfor v in vals:", "x = 1; y = 2"))]
+assert len(QUICK_MUST_HAVE) == 5, QUICK_MUST_HAVE
+
+
 def statement_bases(program):
     """The whole program and each of its statements (at any nesting depth) as fragments of the program.
     -> list of (fragment source, offset) where offset maps fragment node numbers to whole-program numbers."""
